@@ -104,14 +104,43 @@ def gen_scenario(rng, tier):
                 rng.choice([0, 1, 3, 64, 70])]
     else:
         bits = [rng.randint(0, 4), rng.randint(0, 4), rng.randint(0, 4)]
-    positions = sorted(
-        itertools.product(range(grid[0]), range(grid[1]), range(grid[2])),
-        key=lambda p: spec.morton(grid, p))
+    huge = rng.random() < 0.05
+    if huge:
+        # very large, sparsely populated grids: identifiers with more than 32
+        # bits; the shard/minishard bits take (almost) all identifier bits so
+        # that the writer's gap filling stays short
+        while True:
+            nb = [rng.choice([1, 8, 11, 12, 16, 21]) for _ in range(3)]
+            if 24 <= sum(nb) <= 60:
+                break
+        grid = [(1 << b) - rng.choice([0, 0, 1, 3]) if b > 1 else 2
+                for b in nb]
+        cs = rng.choice([1, 2])
+        size = [(g - 1) * cs + rng.randint(1, cs) for g in grid]
+        total = sum(spec.nbits(g) for g in grid)
+        mb_, pb_ = rng.randint(0, 2), rng.randint(0, 2)
+        bits = [mb_, max(0, total - mb_ - pb_ - rng.randint(0, 3)), pb_]
+        cand = [(0, 0, 0), tuple(g - 1 for g in grid)]
+        for d in range(3):
+            hi = [0, 0, 0]
+            hi[d] = 1 << (spec.nbits(grid[d]) - 1)
+            if hi[d] < grid[d]:
+                cand.append(tuple(hi))
+        for _ in range(4):
+            cand.append(tuple(rng.randrange(g) for g in grid))
+        positions = sorted(set(cand), key=lambda p: spec.morton(grid, p))
+    else:
+        positions = sorted(
+            itertools.product(range(grid[0]), range(grid[1]),
+                              range(grid[2])),
+            key=lambda p: spec.morton(grid, p))
     ids = [spec.morton(grid, p) for p in positions]
     n = len(positions)
     kind = rng.choice(["full", "density", "density", "single", "holes_start",
                        "holes_mid", "holes_end", "one_minishard",
                        "one_per_minishard"])
+    if huge:
+        kind = rng.choice(["full", "density", "single"])
     if kind == "full":
         pick = list(range(n))
     elif kind == "density":
@@ -143,12 +172,14 @@ def gen_scenario(rng, tier):
     budget = 150_000
     sizes_pool = PAYLOAD_SIZES if len(pick) <= 12 else [0, 1, 17, 100, 1000]
     r = rng.random()
-    if mode == "bytes" and r < 0.04:
+    if huge:
+        mode = "bytes"
+    if mode == "bytes" and r < 0.04 and not huge:
         # large payloads: beyond typical 64 KiB buffer / read-ahead windows
         pick = pick[:6]
         sizes_pool = [70000, 66000, 40000, 65536, 100, 30000]
         budget = 600_000
-    elif mode == "bytes" and tier == "thorough" and r < 0.05:
+    elif mode == "bytes" and tier == "thorough" and r < 0.05 and not huge:
         # more than 1 MiB in a single minishard
         bits = [0, 0, 0]
         pick = list(range(min(n, 18)))
@@ -214,7 +245,7 @@ def gen_scenario(rng, tier):
             1, len(shards_sorted) - 1)))
         second = [i for i in range(m) if shard_of[i] in late]
     sc = {"grid": grid, "cs": cs, "size": size, "bits": bits,
-          "second_session": second,
+          "second_session": second, "huge": huge,
           "ienc": rng.choice(["raw", "gzip"]),
           "denc": rng.choice(["raw", "gzip"]),
           "mode": mode, "subset": kind,
@@ -263,6 +294,23 @@ def _make_info1(sc):
                 "minishard_bits": mb, "shard_bits": sb, "hash": "identity",
                 "minishard_index_encoding": sc["ienc"],
                 "data_encoding": sc["denc"], "preshift_bits": pb}}]}
+
+
+def _all_or_near(sc, stored):
+    """All grid positions, or -- for huge grids -- the neighbours of the
+    stored ones."""
+    grid = sc["grid"]
+    if not sc.get("huge"):
+        return list(itertools.product(*[range(g) for g in grid]))
+    out = []
+    for p in sorted(stored):
+        for d in range(3):
+            for dv in (-1, 1):
+                q = list(p)
+                q[d] += dv
+                if 0 <= q[d] < grid[d]:
+                    out.append(tuple(q))
+    return sorted(set(out))
 
 
 def coords(sc, pos):
@@ -360,8 +408,7 @@ def spec_check(fs, sc, chunks, res, tag):
     problems, notes = [], set()
     for ki, key in enumerate(keys_of(sc)):
         stored = {tuple(c[:3]): chunk_payload(c, ki) for c in chunks}
-        absent = [p for p in itertools.product(*[range(g) for g in grid])
-                  if p not in stored]
+        absent = [p for p in _all_or_near(sc, stored) if p not in stored]
         if len(absent) > 40:
             step = len(absent) / 40.0
             absent = [absent[int(j * step)] for j in range(40)]
@@ -435,8 +482,7 @@ def own_reader_check(fs, sc, chunks, res, tag, via_pio):
                         key="C05/fetch-stored/wrong-bytes")
             return compared
     grid = sc["grid"]
-    absent = [p for p in itertools.product(*[range(g) for g in grid])
-              if p not in stored]
+    absent = [p for p in _all_or_near(sc, stored) if p not in stored]
     if len(absent) > 25:
         step = len(absent) / 25.0
         absent = [absent[int(j * step)] for j in range(25)]
